@@ -54,7 +54,7 @@ type LSession struct {
 func cp(b []byte) hx.B { return append(hx.B{}, b...) }
 
 // runSession executes the session on the real code and fills Out / Panic.
-// runSession runs the session under a watchdog: the calls take microseconds; one that has not come back after 10 s never will
+// runSession runs the session under a watchdog: the calls take microseconds; one that has not come back after 30 s never will
 // (recorded as the outcome; the stuck goroutine is left behind and the command stops generating: liveHung).
 var liveHung int32
 
@@ -72,12 +72,12 @@ func runSession(s *LSession) {
 	select {
 	case <-done:
 		*s = work
-	case <-time.After(10 * time.Second):
+	case <-time.After(30 * time.Second):
 		atomic.AddInt32(&liveHung, 1)
 		for i := range s.Chunks {
 			s.Chunks[i].Out = []LMsg{}
 		}
-		s.Panic, s.Exact = "timeout: the session did not finish within 10 s (a call never returned)", true
+		s.Panic, s.Exact = "timeout: the session did not finish within 30 s (a call never returned)", true
 	}
 }
 
